@@ -293,6 +293,7 @@ func kwCase(word string) {
 }
 
 func init() {
+	buildOps()
 	// operators and punctuation
 	for _, op := range opOrder {
 		lx("op:"+op, "op", op, op, opKinds[op])
@@ -333,6 +334,7 @@ func init() {
 	str("cjk", "'こんにちは'", "こんにちは")
 	str("emoji", "'😀'", "😀")
 	str("uquote", "‘x’", "x")
+	str("uquote-inside", "'a“b'", "a“b")
 	lx("gstr:guillemets", "gstr", "«x»", "x", kGStr)
 	// '''abc''': the documentation lists triple quotes AND doubled quotes; both readings accepted
 	add(&Lexeme{Name: "tstr:triple", Sig: "tstr:triple", Class: "tstr", Text: `'''abc'''`,
@@ -361,6 +363,7 @@ func init() {
 	qi("dashes", `"a--b"`, "a--b")
 	qi("cjk", `"名前"`, "名前")
 	qi("uquote", "“x”", "x")
+	qi("guillemet-inside", `"a«b"`, "a«b")
 	// backtick identifiers
 	bt := func(name, text, value string) { lx("btident:"+name, "btident", text, value, kIdent) }
 	bt("plain", "`x`", "x")
@@ -425,6 +428,9 @@ func selfCheck() {
 		t := r.Toks[0]
 		if t.Off != 0 || t.End != len(l.Text) || t.Exp[0].Value != l.Exp[0].Value || !sameKinds(t.Exp[0].Kinds, l.Exp[0].Kinds) || t.Fold != l.Fold {
 			panic(fmt.Sprintf("lexgen self-check: %s %q: catalogue %v %q vs reference lexer %v %q", l.Name, l.Text, l.Exp[0].Kinds, l.Exp[0].Value, t.Exp[0].Kinds, t.Exp[0].Value))
+		}
+		if t.Feature != "" {
+			l.Sig = t.Sig() // same signature whichever space meets the construct
 		}
 	}
 }
